@@ -35,6 +35,7 @@ FUNCTIONS = [
     ('bumble/gatt_server.py', 'Server', 'send_response'),
     ('bumble/gatt_server.py', 'Server', '_notify_single_subscriber'),
     ('bumble/gatt_server.py', 'Server', '_indicate_single_bearer'),
+    ('bumble/gatt_server.py', 'Server', 'on_disconnection'),
     ('bumble/gatt_server.py', 'Server', 'on_invalid_gatt_pdu'),
     ('bumble/gatt_server.py', 'Server', 'on_gatt_pdu'),
     ('bumble/gatt_server.py', 'Server', 'on_att_request'),
